@@ -76,6 +76,42 @@ def A(s):
     return [ord(c) for c in s]
 
 
+def _hx(h):
+    return {'hex': h}
+
+
+def _b(x):
+    return {'hex': x.hex()}
+
+
+WIF_A = '5KN7MzqK5wt2TP1fQCYyHBtDrXdJuXbUzm4A9rKAteGu3Qi5CVR'
+# passphrase classes by the shapes that input-sniffing helpers react to: (passphrase, confusable variants - DIFFERENT
+# passphrases, decryption with them must fail -, equivalent forms - the same passphrase, must decrypt).  A passphrase is
+# text: 'deadbeef' is eight letters, not four bytes.  bytes arguments are {'hex': ...}.
+PW_CLASSES = [
+    ('deadbeef', [(_hx('deadbeef'), 'confusable:hex-decoded'), ('DEADBEEF', 'confusable:other-case'), ('deadbeef ', 'confusable:untrimmed')],
+     [_b(b'deadbeef')]),
+    ('CAFE', [(_hx('cafe'), 'confusable:hex-decoded'), ('cafe', 'confusable:other-case')], []),
+    ('123456', [(_hx('123456'), 'confusable:hex-decoded'), ('12 34 56', 'confusable:spaced'), (' 123456', 'confusable:untrimmed')],
+     [_b(b'123456')]),
+    ('12345', [('012345', 'confusable:zero-padded'), (_hx('012345'), 'confusable:hex-decoded')], []),
+    ('abcde', [('ABCDE', 'confusable:other-case'), ('0abcde', 'confusable:zero-padded')], []),
+    ('12 34 56', [('123456', 'confusable:unspaced'), (_hx('123456'), 'confusable:hex-decoded')], []),
+    ('0xdeadbeef', [('deadbeef', 'confusable:prefix-stripped'), (_hx('deadbeef'), 'confusable:hex-decoded')], []),
+    ('11' * 32, [(_hx('11' * 32), 'confusable:hex-decoded'), ('11' * 31, 'wrong')], []),
+    (WIF_A, [(WIF_A.lower(), 'confusable:other-case'), (WIF_A[:-1] + 'S', 'wrong')], []),
+    (' pass ', [('pass', 'confusable:trimmed'), ('pass ', 'confusable:trimmed')], []),
+    ('pass\n', [('pass', 'confusable:trimmed')], []),
+    ('abc', [('616263', 'confusable:hex-of-utf8'), ('ABC', 'confusable:other-case')], [_b(b'abc')]),
+    ('616263', [('abc', 'confusable:hex-decoded-text'), (_b(b'abc'), 'confusable:hex-decoded')], []),
+    ('', [(' ', 'wrong'), (_hx('00'), 'wrong'), ('0', 'wrong')], []),
+    (_b(b'\xff\xfe\x00\x80'), [('fffe0080', 'confusable:hex-text'), (_b(b'\xff\xfe\x00'), 'wrong')], []),
+    (_b(b'123456'), [(_hx('123456'), 'confusable:hex-decoded')], ['123456']),
+    ('x' * 1000, [('x' * 999, 'wrong')], []),
+    ('\uff24\uff25\uff21\uff24', [('DEAD', 'confusable:compatibility-form'), (_hx('dead'), 'confusable:hex-decoded')], []),
+]
+
+
 def S(codes):
     try:
         return ''.join(chr(c) for c in codes)
@@ -83,13 +119,60 @@ def S(codes):
         return str(codes)
 
 
-def pw_class(pw):
+def PJ(x):
+    """Passphrase as it travels in jobs / replay files: text as str, a bytes argument as {'hex': ...}."""
+    return {'hex': bytes(x).hex()} if isinstance(x, (bytes, bytearray)) else x
+
+
+def PY(p):
+    """Passphrase as it is handed to the implementation."""
+    return bytes.fromhex(p['hex']) if isinstance(p, dict) else p
+
+
+def PREC(p):
+    """Passphrase fields of a record for TLC: code points of a text, or the bytes of a bytes argument."""
+    if isinstance(p, dict):
+        return {'pw': list(bytes.fromhex(p['hex'])), 'pwbytes': True}
+    return {'pw': A(p), 'pwbytes': False}
+
+
+HEXD = set('0123456789abcdefABCDEF')
+B58 = set('123456789ABCDEFGHJKLMNPQRSTUVWXYZabcdefghijkmnopqrstuvwxyz')
+
+
+def pw_class(p):
+    """Class of a passphrase by the shapes input-sniffing helpers care about (classification only, no oracle)."""
+    if isinstance(p, dict):
+        b = bytes.fromhex(p['hex'])
+        try:
+            return 'bytes:' + pw_class(b.decode('utf-8'))
+        except UnicodeDecodeError:
+            return 'bytes:not-utf8'
+    pw = p
     if pw == '':
         return 'empty'
+    if len(pw) >= 200:
+        return 'long'
+    if pw != pw.strip():
+        return 'blank-wrapped'
+    if set(pw) <= HEXD:
+        kind = 'digits' if pw.isdigit() else 'hex-' + ('lower' if pw == pw.lower() else 'upper' if pw == pw.upper() else 'mixed')
+        return kind + ('-even' if len(pw) % 2 == 0 else '-odd') + ('-64' if len(pw) == 64 else '')
+    if set(pw) <= HEXD | {' '}:
+        return 'hex-spaced'
+    if pw[:2] in ('0x', '0X') and set(pw[2:]) <= HEXD:
+        return '0x-hex'
+    if len(pw) >= 26 and set(pw) <= B58:
+        return 'base58-like'
     if all(ord(c) < 128 for c in pw):
-        return 'ascii'
+        return 'ascii' + ('-ctrl' if any(ord(c) < 32 for c in pw) else '')
     k = 'nfc' if unicodedata.is_normalized('NFC', pw) else 'non-nfc'
     return k + ('-astral' if any(ord(c) > 0xffff for c in pw) else '')
+
+
+def eff(p):
+    """For labelling cases only: the byte string BIP38 feeds to scrypt (the verdict is TLC's, from Bip38.tla)."""
+    return bytes.fromhex(p['hex']) if isinstance(p, dict) else unicodedata.normalize('NFC', p).encode('utf-8')
 
 
 def key_class(h):
@@ -99,6 +182,8 @@ def key_class(h):
 
 def wrong_variant(pw, rng):
     """A different passphrase (one character changed / added / case flipped) that is not an equivalent normal form."""
+    if isinstance(pw, dict):
+        return PJ(PY(pw) + b'x')
     for _ in range(20):
         how = rng.randrange(4)
         if not pw or how == 0:
@@ -154,13 +239,13 @@ def drive_nonec(job):
                 k = Key(job['priv'], network=job['net'], compressed=job['comp'])
             else:
                 k = HDKey(job['priv'], network=job['net'], compressed=job['comp'], witness_type=job['enc_route'][len('HDKey-'):])
-            t = k.encrypt(job['pw'])
+            t = k.encrypt(PY(job['pw']))
             res['enc'] = {'ok': True, 'tok': t}
             tok = tok or t
         except Exception as e:
             res['enc'] = {'ok': False, 'tok': '', 'note': '%s: %s' % (type(e).__name__, str(e)[:120])}
-    for route, pw, net in job['decs']:
-        res['decs'].append(_obs_dec(route, tok, pw, net) if tok else None)
+    for d in job['decs']:
+        res['decs'].append(_obs_dec(d[0], tok, PY(d[1]), d[2]) if tok else None)
     res['tok'] = tok
     return res
 
@@ -173,7 +258,7 @@ def drive_ec(job):
         kw = {}
         if job['lot'] is not None:
             kw = {'lot': job['lot'], 'sequence': job['seq']}
-        code = bip38_intermediate_password(job['pw'], owner_salt=bytes.fromhex(job['salt']), **kw)
+        code = bip38_intermediate_password(PY(job['pw']), owner_salt=bytes.fromhex(job['salt']), **kw)
         res['inter'] = {'ok': True, 'code': code}
     except Exception as e:
         res['inter'] = {'ok': False, 'code': '', 'note': '%s: %s' % (type(e).__name__, str(e)[:120])}
@@ -186,8 +271,8 @@ def drive_ec(job):
     except Exception as e:
         res['new'] = {'ok': False, 'tok': '', 'conf': '', 'pub': '', 'addr': '', 'note': '%s: %s' % (type(e).__name__, str(e)[:120])}
         return res
-    for route, pw, net in job['decs']:
-        res['decs'].append(_obs_dec(route, res['tok'], pw, net))
+    for d in job['decs']:
+        res['decs'].append(_obs_dec(d[0], res['tok'], PY(d[1]), d[2]))
     return res
 
 
@@ -224,7 +309,7 @@ def scenarios(rng, thorough):
     # published tokens decrypted by the implementation; published keys encrypted by it
     for vi, v in enumerate(VECTORS):
         ec_tok = 'pcode' in v
-        decs = decs_for(v['pw'], 'bitcoin', wrong=vi % 2 == 0) + ([['bip38_decrypt', v['pw'], 'bitcoin']] if ec_tok else [])
+        decs = decs_for(v['pw'], 'bitcoin', wrong=vi % 4 == 0) + ([['bip38_decrypt', v['pw'], 'bitcoin']] if ec_tok else [])
         nonec.append({'priv': v['priv'].lower(), 'comp': v['comp'], 'net': 'bitcoin', 'pw': v['pw'],
                       'enc_route': None if ec_tok else 'Key', 'tok': v['tok'], 'decs': decs, 'origin': 'published vector'})
     # keys x compression x networks x passphrases
@@ -244,14 +329,24 @@ def scenarios(rng, thorough):
             nonec.append({'priv': key, 'comp': comp, 'net': net, 'pw': pw, 'enc_route': 'Key', 'tok': None, 'decs': decs,
                           'origin': 'generated'})
     # every passphrase at least once on bitcoin
-    for j, pw in enumerate(pws):
+    for j, pw in enumerate(pws if thorough else ASCII_PWS[4:6] + UNI_PWS + NFC_PWS):     # (short ASCII shapes: PW_CLASSES below)
         nonec.append({'priv': keys[j % len(keys)], 'comp': bool(j % 2), 'net': 'bitcoin', 'pw': pw, 'enc_route': 'Key', 'tok': None,
-                      'decs': decs_for(pw, 'bitcoin', wrong=j % 2 == 1), 'origin': 'generated'})
+                      'decs': decs_for(pw, 'bitcoin', wrong=False), 'origin': 'generated'})
+    # passphrase shapes: same key / compression / network throughout, so that the reference scrypt of one case's right
+    # passphrase is reused where it is another case's confusable one
+    for j, (pw, confusables, equivalents) in enumerate(PW_CLASSES):
+        for comp in ((True, False) if thorough else (True,)):
+            route = 'Key' if (j % 5 or isinstance(pw, dict)) else 'HDKey-segwit'
+            decs = [['Key', pw, 'bitcoin']]
+            decs += [['Key', c, 'bitcoin', tag] for c, tag in (confusables if thorough else confusables[:2 if j < 9 else 1])]
+            decs += [['Key', e, 'bitcoin'] for e in (equivalents if thorough else equivalents[:1])]
+            nonec.append({'priv': K_A.lower(), 'comp': comp, 'net': 'bitcoin', 'pw': pw, 'enc_route': route, 'tok': None, 'decs': decs,
+                          'origin': 'generated'})
     # HDKey routes
     hd = [('HDKey-legacy', 'HDKey-legacy'), ('HDKey-legacy', 'HDKey-default'), ('HDKey-segwit', 'HDKey-legacy'),
           ('HDKey-p2sh-segwit', 'HDKey-legacy'), ('Key', 'HDKey-default'), ('Key', 'HDKey-segwit'), ('Key', 'HDKey-legacy'),
           ('Key', 'HDKey-p2sh-segwit')]
-    for j, (er, dr) in enumerate(hd * (2 if thorough else 1)):
+    for j, (er, dr) in enumerate(hd * 2 if thorough else hd[1:7]):
         net = nets[j % len(nets)]
         pw = (ASCII_PWS + NFC_PWS)[j % 5]
         nonec.append({'priv': keys[(j + 2) % len(keys)], 'comp': j % 3 != 1, 'net': net, 'pw': pw, 'enc_route': er, 'tok': None,
@@ -259,21 +354,24 @@ def scenarios(rng, thorough):
     # EC multiplication
     lots = [None, (100000, 1), (999999, 4095), (rng.randrange(100000, 1000000), rng.randrange(1, 4096)), (567890, 0), None]
     ecnets = ['bitcoin', 'bitcoin', 'litecoin', 'bitcoin', 'testnet', 'bitcoin', 'dogecoin'] if not thorough else nets
-    ecpws = ['TestingOneTwoThree', UNI_PWS[0], NFC_PWS[0], ASCII_PWS[3], UNI_PWS[5], UNI_PWS[1], NFC_PWS[2], 'Satoshi', UNI_PWS[6]]
-    for j in range(36 if thorough else 12):
+    ecpws = ['TestingOneTwoThree', '123456', UNI_PWS[0], 'deadbeef', NFC_PWS[0], ASCII_PWS[3], UNI_PWS[5], 'CAFE', UNI_PWS[1], NFC_PWS[2],
+             ' 0x12 ', UNI_PWS[6], 'Satoshi']
+    for j in range(39 if thorough else 11):
         pw = ecpws[j % len(ecpws)]
         lot = lots[j % len(lots)]
         net = ecnets[j % len(ecnets)]
         salt = bytes(rng.getrandbits(8) for _ in range(4 if (lot and j % 2) else 8)).hex()
         seed = bytes(rng.getrandbits(8) for _ in range(24)).hex()
         decs = decs_for(pw, net, wrong=j % 2 == 1) + [['bip38_decrypt', pw, net]]
+        if set(pw) <= HEXD and len(pw) % 2 == 0:
+            decs.append(['Key', _hx(pw), net, 'confusable:hex-decoded'])
         if j % 4 == 0:
             decs.append(['bip38_decrypt', wrong_variant(pw, rng), net])
         ec.append({'pw': pw, 'lot': lot[0] if lot else None, 'seq': lot[1] if lot else None, 'salt': salt, 'seed': seed,
                    'comp': j % 2 == 0, 'net': net, 'decs': decs})
     # freshness histories
     ops = ['intermediate', 'intermediate-lot', 'new', 'key', 'hdkey']
-    for t in range(24 if thorough else 8):
+    for t in range(24 if thorough else 6):
         calls = []
         for _ in range(rng.randrange(6, 11) if thorough else rng.randrange(3, 7)):
             op = rng.choice(ops[:3] if rng.random() < 0.7 else ops)
@@ -286,7 +384,7 @@ def scenarios(rng, thorough):
         calls += [['intermediate', None], ['new', None], ['intermediate-lot', None], ['new', None], ['intermediate', None],
                   ['intermediate-lot', None], ['key', None], ['hdkey', None], ['key', None], ['hdkey', None]]
         rng.shuffle(calls)
-        traces.append({'calls': calls, 'passphrase': rng.choice(['pw', 'Satoshi', UNI_PWS[0]]), 'network': rng.choice(nets),
+        traces.append({'calls': calls, 'passphrase': rng.choice(['pw', 'Satoshi', UNI_PWS[0], '123456']), 'network': rng.choice(nets),
                        'compressed': bool(t % 2)})
     return nonec, ec, traces
 
@@ -295,12 +393,17 @@ def scenarios(rng, thorough):
 # records for TLC
 # ---------------------------------------------------------------------------------------------
 
-def dec_relation(pw, right):
+def dec_relation(pw, right, tag=None):
     if pw == right:
         return 'same'
-    if unicodedata.normalize('NFC', pw) == unicodedata.normalize('NFC', right):
-        return 'other-normal-form'
-    return 'wrong'
+    if eff(pw) == eff(right):
+        return 'bytes-for-text' if isinstance(pw, dict) != isinstance(right, dict) else 'other-normal-form'
+    return tag or 'wrong'
+
+
+def short(p):
+    r = repr(PY(p))
+    return r if len(r) <= 70 else r[:50] + '...(%d)' % len(PY(p))
 
 
 def strip(got):
@@ -313,17 +416,27 @@ def records_nonec(job, res, ji):
     if res['enc'] is not None:
         g = res['enc']
         rec = {'k': 'enc', 'route': job['enc_route'], 'net': job['net'], 'priv': list(bytes.fromhex(job['priv'])), 'comp': job['comp'],
-               'pw': A(job['pw']), 'got': {'ok': g['ok'], 'tok': A(g['tok'])}}
-        desc = '%s(%s.., %s, compressed=%s).encrypt(%r) -> %s' % (job['enc_route'], job['priv'][:8], job['net'], job['comp'], job['pw'],
+               'got': {'ok': g['ok'], 'tok': A(g['tok'])}}
+        rec.update(PREC(job['pw']))
+        desc = '%s(%s.., %s, compressed=%s).encrypt(%s) -> %s' % (job['enc_route'], job['priv'][:8], job['net'], job['comp'], short(job['pw']),
                                                                 g['tok'] if g['ok'] else 'refused (%s)' % g.get('note'))
         out.append((rec, ('enc', job['enc_route'], job['net'], job['comp'], pw_class(job['pw']), key_class(job['priv'])), desc, case))
-    for (route, pw, net), g in zip(job['decs'], res['decs']):
+    for d, g in zip(job['decs'], res['decs']):
         if g is None:
             continue
-        rec = {'k': 'dec', 'route': route, 'net': net, 'tok': A(res['tok']), 'pw': A(pw), 'got': strip(g)}
-        rel = dec_relation(pw, job['pw']) + ('' if net == job['net'] else '/other-network')
-        desc = '%s(%s, password=%r, network=%s) [%s; token of %s on %s, %s] -> %s' % (
-            route, res['tok'], pw, net, rel, job['origin'], job['net'], 'code' if job['tok'] is None else 'published',
+        route, pw, net = d[0], d[1], d[2]
+        if res['enc'] is not None and res['enc']['ok'] and pw == job['pw'] and net == job['net'] and job['tok'] is None:
+            rt = {'k': 'rt', 'priv': list(bytes.fromhex(job['priv'])), 'comp': job['comp'], 'encok': True, 'got': strip(g)}
+            out.append((rt, ('round-trip', job['enc_route'], route, net, job['comp'], pw_class(pw)),
+                        '%s(%s.., %s, compressed=%s).encrypt(%s) -> %s, then %s(token, password=<the same>, network=%s) -> %s' % (
+                            job['enc_route'], job['priv'][:8], job['net'], job['comp'], short(pw), res['tok'], route, net,
+                            ('key %s.. compressed=%s' % (bytes(g['priv']).hex()[:8], g['comp'])) if g['ok'] else 'refused (%s)' % g.get('note')),
+                        case))
+        rec = {'k': 'dec', 'route': route, 'net': net, 'tok': A(res['tok']), 'got': strip(g)}
+        rec.update(PREC(pw))
+        rel = dec_relation(pw, job['pw'], d[3] if len(d) > 3 else None) + ('' if net == job['net'] else '/other-network')
+        desc = '%s(%s, password=%s, network=%s) [%s; token of %s on %s, %s] -> %s' % (
+            route, res['tok'], short(pw), net, rel, job['origin'], job['net'], 'code' if job['tok'] is None else 'published',
             ('key %s.. compressed=%s' % (bytes(g['priv']).hex()[:8], g['comp'])) if g['ok'] else 'refused (%s)' % g.get('note'))
         out.append((rec, ('dec', route, net, res['tok'][:3], rel, pw_class(pw)), desc, case))
     return out
@@ -334,10 +447,11 @@ def records_ec(job, res, ji):
     case = {'kind': 'ec', 'job': job}
     lotseq = [job['lot'], job['seq']] if job['lot'] is not None else []
     g = res['inter']
-    rec = {'k': 'inter', 'pw': A(job['pw']), 'lotseq': lotseq, 'salt': list(bytes.fromhex(job['salt'])),
+    rec = {'k': 'inter', 'lotseq': lotseq, 'salt': list(bytes.fromhex(job['salt'])),
            'got': {'ok': g['ok'], 'code': A(g['code'])}}
-    desc = 'bip38_intermediate_password(%r, lot=%s, sequence=%s, owner_salt=%s) -> %s' % (
-        job['pw'], job['lot'], job['seq'], job['salt'], g['code'] if g['ok'] else 'refused (%s)' % g.get('note'))
+    rec.update(PREC(job['pw']))
+    desc = 'bip38_intermediate_password(%s, lot=%s, sequence=%s, owner_salt=%s) -> %s' % (
+        short(job['pw']), job['lot'], job['seq'], job['salt'], g['code'] if g['ok'] else 'refused (%s)' % g.get('note'))
     out.append((rec, ('inter', bool(lotseq), len(job['salt']) // 2, pw_class(job['pw']),
                       (job['seq'] == 0, job['lot'] in (100000, 999999)) if lotseq else None), desc, case))
     if res['new'] is None:
@@ -350,11 +464,13 @@ def records_ec(job, res, ji):
         res['inter']['code'], job['comp'], job['seed'], job['net'], (g['tok'] + ' / ' + g['conf'] + ' / ' + g['addr']) if g['ok']
         else 'refused (%s)' % g.get('note'))
     out.append((rec, ('new', bool(lotseq), job['comp'], job['net']), desc, case))
-    for (route, pw, net), g in zip(job['decs'], res['decs']):
-        rec = {'k': 'dec', 'route': route, 'net': net, 'tok': A(res['tok']), 'pw': A(pw), 'got': strip(g)}
-        rel = dec_relation(pw, job['pw'])
-        desc = '%s(%s, password=%r, network=%s) [%s; EC-multiplied token made by the code for %s, lot/sequence %s] -> %s' % (
-            route, res['tok'], pw, net, rel, job['net'], lotseq or None,
+    for d, g in zip(job['decs'], res['decs']):
+        route, pw, net = d[0], d[1], d[2]
+        rec = {'k': 'dec', 'route': route, 'net': net, 'tok': A(res['tok']), 'got': strip(g)}
+        rec.update(PREC(pw))
+        rel = dec_relation(pw, job['pw'], d[3] if len(d) > 3 else None)
+        desc = '%s(%s, password=%s, network=%s) [%s; EC-multiplied token made by the code for %s, lot/sequence %s] -> %s' % (
+            route, res['tok'], short(pw), net, rel, job['net'], lotseq or None,
             ('key %s.. compressed=%s lot=%s sequence=%s' % (bytes(g['priv']).hex()[:8], g['comp'], g['lot'], g['seq'])) if g['ok']
             else 'refused (%s)' % g.get('note'))
         out.append((rec, ('dec', route, net, res['tok'][:3], rel, pw_class(pw), bool(lotseq)), desc, case))
@@ -403,7 +519,7 @@ def run(replay=None):
         nonec, ec, traces = scenarios(rng, thorough)
     with ThreadPoolExecutor(max_workers=8) as tp:
         fut_traces = [tp.submit(run_trace, t) for t in traces]
-        jobs = [('nonec', j) for j in nonec] + [('ec', j) for j in ec]
+        jobs = [('ec', j) for j in ec] + [('nonec', j) for j in nonec]         # longest jobs first
         results = common.pmap(_drive, jobs, procs=min(common.NCPU, 12)) if jobs else []
         trace_res = [f.result() for f in fut_traces]
     timing['drive_s'] = round(time.time() - t0, 1)
@@ -428,7 +544,7 @@ def run(replay=None):
 
     # ---------------- the specification against the published vectors (in the background), then the verdicts
     fut_jvm.result()
-    vrecs = [{'k': 'vector', 'tok': A(v['tok']), 'pw': A(v['pw']), 'priv': list(bytes.fromhex(v['priv'])), 'comp': v['comp'],
+    vrecs = [{'k': 'vector', 'tok': A(v['tok']), 'pw': A(v['pw']), 'pwbytes': False, 'priv': list(bytes.fromhex(v['priv'])), 'comp': v['comp'],
               'lot': v.get('lot', 0), 'seq': v.get('seq', 0), 'pcode': A(v.get('pcode', '')), 'conf': A(v.get('conf', ''))}
              for v in VECTORS]
     # binding canaries (no implementation involved): observations that MUST be rejected, with the right clause
@@ -442,12 +558,12 @@ def run(replay=None):
         ({'k': 'trace', 'events': [ev('new', x24, arg=x24), ev('new', y24, arg=x24)]}, 'explicit-entropy-not-honoured', 2, []),
         ({'k': 'trace', 'events': [ev('new', x24), ev('new', y24), ev('new', x24)]}, 'ok', 0, ['generator-entropy-drawn-once-per-process']),
         ({'k': 'trace', 'events': [ev('new', x24), ev('new', y24), ev('new', y24)]}, 'entropy-reused', 3, []),
-        ({'k': 'dec', 'route': 'Key', 'net': 'bitcoin', 'tok': A(v0['tok']), 'pw': A(v0['pw'] + 'x'),
+        ({'k': 'dec', 'route': 'Key', 'net': 'bitcoin', 'tok': A(v0['tok']), 'pw': A(v0['pw'] + 'x'), 'pwbytes': False,
           'got': {'ok': True, 'priv': list(bytes.fromhex(v0['priv'])), 'comp': False, 'lot': 0, 'seq': 0}},
          'decrypt-must-fail-but-returned-a-key', 0, []),
-        ({'k': 'dec', 'route': 'Key', 'net': 'bitcoin', 'tok': A(v0['tok']), 'pw': A(v0['pw']),
+        ({'k': 'dec', 'route': 'Key', 'net': 'bitcoin', 'tok': A(v0['tok']), 'pw': A(v0['pw']), 'pwbytes': False,
           'got': {'ok': True, 'priv': list(bytes.fromhex(v0['priv'])), 'comp': True, 'lot': 0, 'seq': 0}}, 'decrypt-wrong-key', 0, []),
-        ({'k': 'enc', 'route': 'Key', 'net': 'bitcoin', 'priv': list(bytes.fromhex(v0['priv'])), 'comp': False, 'pw': A(v0['pw']),
+        ({'k': 'enc', 'route': 'Key', 'net': 'bitcoin', 'priv': list(bytes.fromhex(v0['priv'])), 'comp': False, 'pw': A(v0['pw']), 'pwbytes': False,
           'got': {'ok': True, 'tok': A(v0['tok'][:-1] + 'h')}}, 'encrypt-token', 0, []),
     ]
     voracle = c15_oracle.Oracle()
@@ -474,7 +590,7 @@ def run(replay=None):
             if rec['k'] == 'enc' and o['exp'] and case['kind'] == 'nonec':
                 j = case['job']
                 retry.append({'priv': j['priv'], 'comp': j['comp'], 'net': j['net'], 'pw': j['pw'], 'enc_route': None, 'tok': S(o['exp']),
-                              'decs': [['Key', j['pw'], j['net']], ['Key', unicodedata.normalize('NFC', j['pw']), j['net']],
+                              'decs': [['Key', j['pw'], j['net']], ['Key', j['pw'] if isinstance(j['pw'], dict) else unicodedata.normalize('NFC', j['pw']), j['net']],
                                        ['Key', wrong_variant(j['pw'], rng), j['net']]], 'origin': 'specification'})
     if retry and not replay:
         retry = retry[:40 if thorough else 4]
